@@ -498,6 +498,12 @@ func (cx *Ctx) errDisciplined(c *ssa.Call) bool {
 	if storageMethod(c) != "" {
 		return true
 	}
+	if cx.errAll {
+		// strict mode (signing code): every call that reports an error counts, library and interface calls included
+		if _, has, _ := errResult(c); has {
+			return true
+		}
+	}
 	if f := calleeOf(c); f != nil {
 		if f.Pkg != nil && isModulePath(f.Pkg.Pkg.Path()) {
 			return true
